@@ -297,6 +297,38 @@ func (s *State) learn(f string) {
 			}
 		}
 		// positivity / non-zero facts used by the division fast path
+		if s.fin == nil {
+			s.fin = map[string]string{}
+		}
+		if strings.HasPrefix(c, "(= ") && strings.HasSuffix(c, ")") {
+			parts := splitSexp(c[3 : len(c)-1])
+			if len(parts) == 2 {
+				ra, oka := s.fin[parts[0]]
+				rb, okb := s.fin[parts[1]]
+				switch {
+				case oka && !okb && !strings.HasPrefix(parts[1], "(fin "):
+					s.fin[parts[1]] = ra
+				case okb && !oka && !strings.HasPrefix(parts[0], "(fin "):
+					s.fin[parts[0]] = rb
+				case !oka && !okb && strings.HasPrefix(parts[1], "(fin ") && balancedParen(parts[1]) && !strings.HasPrefix(parts[0], "(fin "):
+					s.fin[parts[0]] = parts[1][5 : len(parts[1])-1]
+				case !oka && !okb && strings.HasPrefix(parts[0], "(fin ") && balancedParen(parts[0]) && !strings.HasPrefix(parts[1], "(fin "):
+					s.fin[parts[1]] = parts[0][5 : len(parts[0])-1]
+				}
+			}
+		}
+		for _, pat := range [][2]string{{"(> ", " 0)"}, {"(>= ", " 1)"}, {"(> ", " 0.0)"}} {
+			if strings.HasPrefix(c, pat[0]) && strings.HasSuffix(c, pat[1]) {
+				t := c[len(pat[0]) : len(c)-len(pat[1])]
+				if balancedOrAtom(t) {
+					if s.nonzero == nil {
+						s.nonzero = map[string]bool{}
+					}
+					s.nonzero[t] = true
+					s.nonzero["(to_real "+t+")"] = true
+				}
+			}
+		}
 		for _, pat := range [][2]string{{"(< 0 ", ")"}, {"(<= 1 ", ")"}, {"(< 0.0 ", ")"}} {
 			if strings.HasPrefix(c, pat[0]) && strings.HasSuffix(c, pat[1]) {
 				t := c[len(pat[0]) : len(c)-1]
